@@ -111,6 +111,17 @@ SUITES["struct3p"] = {
     "kinds": [1, 2, 3, 4, 5, 6], "depth": {"quick": 4, "thorough": 7}, "maxid": 8,
     "design_depth": {"quick": 2, "thorough": 4},
 }
+# primitive actions called directly (C01): action, .inverse(), .inverse().inverse()
+SUITES["prims3"] = {
+    "tla": SUITES["struct3"]["tla"],
+    "cfg": {"N": 3, "T": 3, "dims": [], "scale": [], "use_scale": True, "reg_cust": True, "per_axis_pos": False,
+            "name": "prims3"},
+    "kinds": [1, 2, 3, 4, 5, 6, 21], "fire_kinds": [21], "depth": {"quick": 4, "thorough": 6}, "maxid": 8,
+    "design_depth": {"quick": 2, "thorough": 3}, "sample": {"quick": 500, "thorough": 5000},
+}
+SUITES["primseg"] = _seg_suite("primseg", [1, 3], "D_1x3", [1, 2], "S_12", sample={"quick": 500, "thorough": 5000})
+SUITES["primseg"]["kinds"] = [2, 3, 4, 5, 6, 9, 21]
+SUITES["primseg"]["fire_kinds"] = [21]
 # feature switching
 SUITES["featns"] = {
     "tla": SUITES["struct3"]["tla"],
@@ -125,6 +136,16 @@ SUITES["feat13"]["kinds"] = [2, 3, 4, 6, 9, 10]
 SUITES["feat22"] = _seg_suite("feat22", [2, 2], "D_2x2", [1, 1], "S_11", depth=(2, 2),
                               sample={"quick": 300, "thorough": 6000})
 SUITES["feat22"]["kinds"] = [2, 3, 4, 6, 9, 10]
+# 3D + t with the 3D shape features (surface area, sphericity) enabled from the start; every mask of a
+# 2x2x2 frame touches the border. Strokes of <= 2 voxels (skimage's marching cubes refuses a mask that fills
+# the whole frame).
+SUITES["feat3d"] = _seg_suite("feat3d", [2, 2, 2], "D_2x2x2", [1, 1, 1], "S_111", depth=(1, 2),
+                              sample={"quick": 150, "thorough": 2500})
+SUITES["feat3d"]["cfg"]["enable"] = ["iou", "circ", "perim"]
+SUITES["feat3d"]["extra_act"] = ["iou", "circ", "perim"]
+SUITES["feat3d"]["cfg"]["max_stroke"] = 2
+SUITES["feat3d"]["kinds"] = [2, 3, 4, 9]
+SUITES["feat3d"]["design_depth"] = {"quick": -1, "thorough": 0}
 
 import hashlib
 
@@ -205,11 +226,16 @@ def mc_constants(suite, depth, emit, hist=False):
     c["RegCust"] = "TRUE" if suite["cfg"].get("reg_cust") else "FALSE"
     c["ExtraAct"] = tlc.tla_set(suite.get("extra_act", []))
     c["Seeds"] = "<- " + suite.get("seeds", "SeedsNone")
+    c["MaxStroke"] = str(suite["cfg"].get("max_stroke", 0))
     return c
 
 
 def design_run(suite, tier, scratch, prop, log):
     depth = suite["design_depth"][tier]
+    if depth < 0:
+        # the design-level check of this universe is left to the thorough tier (too slow for every change)
+        return {"suite": suite["cfg"]["name"], "depth": depth, "states": 0, "transitions": 0, "wall_s": 0.0,
+                "skipped": True, "from_cache": False, "constants": mc_constants(suite, 0, False)}
     return cached("design", [mc_constants(suite, depth, False), tier == "thorough"],
                   lambda: _design_run(suite, tier, scratch, prop, log))
 
@@ -303,7 +329,7 @@ def replay(suite, paths, scratch, nshards):
     outdir = os.path.join(scratch, "rec")
     t0 = time.time()
     p = subprocess.run([PY, os.path.join(ROOT, "harness", "replay.py"), cfgp, pp, outdir, str(nshards),
-                        json.dumps(suite["kinds"])], stdout=subprocess.PIPE, stderr=subprocess.PIPE, text=True,
+                        json.dumps(suite.get("fire_kinds", suite["kinds"]))], stdout=subprocess.PIPE, stderr=subprocess.PIPE, text=True,
                        env=harness_env())
     if p.returncode != 0:
         raise MachineryError("replay harness failed:\n" + p.stderr[-3000:])
